@@ -74,3 +74,77 @@ def self_test(dec, res, name, assumptions, mutated_goal):
     res.extra.setdefault("self_tests", []).append({"name": name, "verdict": v})
     if v != "sat":
         res.inconclusive.append("%s: mutated-oracle self-test returned %s (expected sat) %s" % (name, v, note))
+
+
+def hunt_multi(dec, res, prop, name, assumptions, clauses, shapes, inputs, replay_fn, role_of, max_rounds=12, sample=None):
+    """Like `hunt`, for several oracle clauses decided by ONE query per round.
+
+    clauses: list of (clause name, goal term) in priority order (a later clause
+    may be stated under the hypothesis of an earlier one).  The goal of a round
+    is  /\\_c (clause_c \\/ \\/ excluded shapes of c);  a model is attributed to the
+    first clause it falsifies, classified by shape, replayed natively
+    (replay_fn(vals) -> {"violated": [clause names], ...}) and then that
+    (clause, shape) pair is excluded and the query re-issued.
+    role_of(clause, shape) -> role key."""
+    res.obligations += len(clauses)
+    if sample and len(res.samples) < 24:
+        res.samples.append(sample)
+    v, _, note = dec.decide(name + "#vacuity", assumptions, FALSE, second=name.split("@")[0] + "#vacuity")
+    if v != "sat":
+        res.inconclusive.append("%s: vacuity twin is %s %s" % (name, v, note))
+        return []
+    excl = {c: [] for c, _ in clauses}
+    roles = []
+    k = 0
+    while True:
+        goal = And(*[Or(t, *excl[c]) for c, t in clauses])
+        v, model, note = dec.decide("%s#%d" % (name, k), list(assumptions), goal, second=name.split("@")[0])
+        k += 1
+        if v == "unsat":
+            res.discharged += len(clauses)
+            break
+        if v != "sat":
+            res.inconclusive.append("%s: solver verdict %s %s (after excluding %d (clause, shape) pairs)"
+                                    % (name, v, note, sum(len(x) for x in excl.values())))
+            break
+        vals = inputs.decode(model)
+        pairs = inputs.subst_pairs(vals)
+        failing = None
+        for c, t in clauses:
+            if not eval_bool(Or(t, *excl[c]), pairs):
+                failing = c
+                break
+        if failing is None:
+            res.inconclusive.append("%s: solver model falsifies no clause after substitution (encoder wrong?) %s"
+                                    % (name, json.dumps(vals, sort_keys=True)))
+            break
+        shape = None
+        for sn, pred in shapes:
+            try:
+                if eval_bool(pred, pairs):
+                    shape = (sn, pred)
+                    break
+            except ValueError:
+                continue
+        rep = replay_fn(vals)
+        if failing not in rep.get("violated", []):
+            res.inconclusive.append("%s: solver model for clause %s does not reproduce natively (encoder or concrete oracle wrong?): "
+                                    "inputs=%s native=%s violated=%s"
+                                    % (name, failing, json.dumps(vals, sort_keys=True), json.dumps(rep.get("native"))[:300],
+                                       rep.get("violated")))
+            break
+        role = role_of(failing, shape[0] if shape else "other")
+        payload = dict(rep.get("replay", {}))
+        payload.update({"property": prop, "role": role, "obligation": name, "clause": failing, "inputs": vals})
+        if role not in roles:
+            roles.append(role)
+            path = write_replay(prop, role.split("/", 2)[-1], payload)
+            res.violations.append({"role": role, "what": rep.get("what", ""), "replay": path, "witness": vals})
+        if shape is None:
+            excl[failing].append(And(*[v == val for v, val in pairs]))
+        else:
+            excl[failing].append(shape[1])
+        if k > max_rounds:
+            res.inconclusive.append("%s: more than %d (clause, shape) violation classes; search stopped" % (name, max_rounds))
+            break
+    return roles
